@@ -436,3 +436,193 @@ class ArbiterReapProcesses(object):
         if any(p not in dead for p in obs['reap_events']):
             bad.add('post[reaped-were-dead]')
         return bad
+
+
+# ---- the readers of the watcher directory (C15): real functions on a real, coherent directory ----------------
+DIR_POOLS = [(), ('a',), ('A', 'b'), ('Ab', 'c', 'D'), ('x', 'Web App', 'y'), ('ß', 'Z')]
+
+
+def _lookup_names(existing):
+    names = list(existing) + [e.swapcase() for e in existing] + [e.upper() for e in existing]
+    return names + ['zz', '', ' ', 'web_app', None, 5, ['a']]
+
+
+class _Lookup(object):
+    """a named lookup: any letter case reaches the same watcher, an unknown name is refused, nothing is changed"""
+    refusal = 'KeyError'
+
+    def from_model(self, m):
+        return []
+
+    def enumerate(self):
+        for existing in DIR_POOLS:
+            for n in _lookup_names(existing):
+                yield {'existing': list(existing), 'name': n}
+
+    def call(self, a, name):
+        return a.get_watcher(name)
+
+    def run(self, inp):
+        a = bare_arbiter(inp['existing'])
+        before = (dict(a._watchers_names), list(a.watchers))
+        obs = {}
+        try:
+            r = self.call(a, inp['name'])
+            obs['returned'] = True
+            obs['is_registered'] = isinstance(inp['name'], str) and \
+                a._watchers_names.get(inp['name'].lower()) is r and r is not None
+        except Exception as e:
+            obs['raised'] = type(e).__name__
+        obs['unchanged'] = before == (a._watchers_names, a.watchers)
+        return obs
+
+    def check(self, inp, obs):
+        bad = set()
+        n = inp['name']
+        known = isinstance(n, str) and n.lower() in [e.lower() for e in inp['existing']]
+        if not obs['unchanged']:
+            bad.add('frame')
+        if 'returned' in obs:
+            if not isinstance(n, str):
+                bad.add('post[0]')
+            elif not known:
+                bad.add('post[1]')
+            elif not obs['is_registered']:
+                bad.add('post[2]')
+        elif obs['raised'] == self.refusal:
+            if not isinstance(n, str):
+                bad.add('raises[%s][0]' % self.refusal)
+            elif known:
+                bad.add('raises[%s][1]' % self.refusal)
+        elif obs['raised'] == 'AttributeError':
+            if isinstance(n, str):
+                bad.add('raises[AttributeError][0]')
+        else:
+            bad.add('noescape')
+        return bad
+
+
+@register('circus.arbiter:Arbiter.get_watcher')
+class GetWatcher(_Lookup):
+    pass
+
+
+@register('circus.commands.base:Command._get_watcher')
+class CommandGetWatcher(_Lookup):
+    refusal = 'MessageError'
+
+    def call(self, a, name):
+        from circus.commands.status import Status
+        return Status()._get_watcher(a, name)
+
+
+class _DirReader(object):
+    """a reader of the whole directory on a coherent directory with mixed statuses"""
+    def from_model(self, m):
+        return []
+
+    def enumerate(self):
+        for existing in DIR_POOLS:
+            for active in (0, 1, 2):
+                yield {'existing': list(existing), 'active': active}
+
+    def run(self, inp):
+        a = bare_arbiter(inp['existing'])
+        for i, w in enumerate(a.watchers):
+            w._status = 'active' if (i + inp['active']) % 3 == 0 else 'stopped'
+        before = (dict(a._watchers_names), list(a.watchers), [w._status for w in a.watchers])
+        obs = {}
+        try:
+            obs['result'] = self.call(a)
+        except Exception as e:
+            obs['raised'] = type(e).__name__
+        obs['names'] = [w.name for w in a.watchers]
+        obs['keys'] = sorted(a._watchers_names)
+        obs['statuses'] = dict((w.name, w._status) for w in a.watchers)
+        obs['unchanged'] = before == (a._watchers_names, a.watchers, [w._status for w in a.watchers])
+        return obs
+
+    def check(self, inp, obs):
+        if 'raised' in obs:
+            return set(['noescape'])
+        bad = self.clauses(obs['result'], obs)
+        if not obs['unchanged']:
+            bad.add('frame')
+        return bad
+
+
+@register('circus.arbiter:Arbiter.numwatchers')
+class NumWatchersFn(_DirReader):
+    def call(self, a):
+        return a.numwatchers()
+
+    def clauses(self, r, obs):
+        return set() if r == len(obs['names']) and not isinstance(r, bool) else set(['post[0]'])
+
+
+@register('circus.arbiter:Arbiter.statuses')
+class StatusesFn(_DirReader):
+    def call(self, a):
+        return a.statuses()
+
+    def clauses(self, r, obs):
+        bad = set()
+        if not isinstance(r, dict):
+            return set(['post[0]', 'post[1]'])
+        if any(n not in r or r[n] != s for n, s in obs['statuses'].items()):
+            bad.add('post[0]')
+        if any(k not in obs['statuses'] for k in r):
+            bad.add('post[1]')
+        return bad
+
+
+@register('circus.commands.numwatchers:NumWatchers.execute')
+class NumWatchersCmd(_DirReader):
+    def call(self, a):
+        from circus.commands.numwatchers import NumWatchers
+        return NumWatchers().execute(a, {})
+
+    def clauses(self, r, obs):
+        if not isinstance(r, dict):
+            return set(['post[0]'])
+        if 'numwatchers' not in r:
+            return set(['post[1]'])
+        return set() if r['numwatchers'] == len(obs['names']) else set(['post[2]'])
+
+
+@register('circus.commands.list:List.execute')
+class ListCmd(_DirReader):
+    def call(self, a):
+        from circus.commands.list import List
+        return List().execute(a, {})
+
+    def clauses(self, r, obs):
+        if not isinstance(r, dict):
+            return set(['post[0]'])
+        if 'watchers' not in r:
+            return set(['post[1]'])
+        lst = r['watchers']
+        if not isinstance(lst, list):
+            return set(['post[2]'])
+        bad = set()
+        if set(lst) != set(obs['keys']):
+            bad.add('post[3]')
+        if len(lst) != len(obs['keys']):
+            bad.add('post[4]')
+        return bad
+
+
+@register('circus.commands.status:Status.execute')
+class StatusCmd(_DirReader):
+    def call(self, a):
+        from circus.commands.status import Status
+        return Status().execute(a, {})
+
+    def clauses(self, r, obs):
+        if not isinstance(r, dict):
+            return set(['post[0]'])
+        if 'statuses' not in r:
+            return set(['post[1]'])
+        if not isinstance(r['statuses'], dict):
+            return set(['post[2]'])
+        return set() if set(r['statuses']) == set(obs['names']) else set(['post[3]'])
